@@ -19,6 +19,7 @@ def run(ck, fb):
     r12k(ck, fb)
     r12l(ck, fb)
     r12m(ck, fb)
+    r12o(ck, fb)
     ck.borrow('rules.c11', {'R11g': 'R12n'}, 'a connection that ends takes its ephemeral instances with it only if every instance it registered is in its owner set')
     ck.borrow('rules.c13', {'R13b': 'R12i'}, 'a live gRPC or persistent registration must not be expired by a stale heartbeat entry queued for the same address')
 
@@ -462,3 +463,38 @@ def _owners(p):
 def rv_ops(rv):
     from rn.facts import rv_operands
     return rv_operands(rv)
+
+
+def r12o(ck, fb, R='R12o'):
+    ck.rule(R, 'an instance carries the flags it was registered with: the text -> bool helper of the HTTP registration / beat / list parameters '
+               '(utils::get_bool_from_string, used for enabled, ephemeral, healthyOnly) lets the DEFAULT decide only when no value was given - the '
+               'parameter `default` is read only where the text is absent or tested empty. A parser that falls back to the default for a text it does not '
+               'recognise turns enabled=False / ephemeral=FALSE into the default true: the disabled instance is returned as enabled, the persistent one '
+               'is stored as ephemeral')
+    b = ck.body('rnacos::utils::get_bool_from_string', R)
+    if not b:
+        return
+    callers = [x for x in fb.bodies.values() if x.calls(r'utils::get_bool_from_string$')]
+    ck.floor(R, 'functions that parse a flag through get_bool_from_string', len(callers), 3)
+    dflt = [l for l in range(1, b.argc + 1) if b.local_name(l) == 'default']
+    ck.require(len(dflt) == 1, R, 'get_bool_from_string:default-parameter', b.where(), 'no parameter named default')
+    if len(dflt) != 1:
+        return
+    d = dflt[0]
+    from rn.facts import rv_operands, op_place, pl_local
+    uses = []
+    for (bb, i, st) in b.stmts():
+        rv = st.get('rv')
+        if rv and any(op_place(o) is not None and pl_local(op_place(o)) == d for o in rv_operands(rv)):
+            uses.append(bb)
+    for s0 in b.sites:
+        if any(op_place(o) is not None and pl_local(op_place(o)) == d for o in s0.args):
+            uses.append(s0.bb)
+    ck.floor(R, 'reads of the default', len(uses), 1)
+    for bb in sorted(set(uses)):
+        atoms = cfg.guard_atoms(b, bb)
+        absent = any(a[0] == 'variant' and a[2] == 'None' for a in atoms)
+        empty = any(a[0] == 'call' and (a[1] or '').endswith('is_empty') and a[2] is True for a in atoms)
+        ck.require(absent or empty, R, 'get_bool_from_string:default-only-for-absent-or-empty', b.where(bb),
+                   'the default decides the flag for a text that was given (%s): a value such as "False" or "FALSE" becomes the default instead of false'
+                   % [cfg.fmt_atom(a) for a in atoms], 'default used only for an absent / empty value')
